@@ -538,8 +538,15 @@ static EbErrorType encode_tu(EncodeContext *encode_context_ptr, int frames, uint
         memmove(dst, src_stream_ptr->p_buffer, size);
         //1. The last frame is a displayable frame, others are undisplayed.
         //2. We do not push alt ref frame since the overlay frame will carry the pts.
-        if (i != frames - 1 && !queue_entry_ptr->is_alt_ref)
-            push_undisplayed_frame(encode_context_ptr, wrapper);
+        if (i != frames - 1) {
+            if (!queue_entry_ptr->is_alt_ref)
+                push_undisplayed_frame(encode_context_ptr, wrapper);
+            else {
+                // its data now lives in the temporal unit: hand the header back to the pool
+                EB_FREE(src_stream_ptr->p_buffer);
+                svt_release_object(wrapper);
+            }
+        }
     }
     if (frames > 1)
         sort_undisplayed_frame(encode_context_ptr);
